@@ -447,7 +447,7 @@ func apGenBase(r *Rand) apCase {
 			sp.call = "json_arrayagg(" + sp.arg + ")"
 		}
 		if (kind == "sum" || kind == "count" || kind == "max") && r.Chance(1, 3) {
-			sp.post = pick(r, []string{" + 1", " * 2"})
+			sp.post = pick(r, aggrPosts)
 		}
 		specs = append(specs, sp)
 	}
